@@ -58,6 +58,8 @@ impl SignatureConverter<'_> {
     }
 
     fn generate_params(&self, sig: &mut syn::Signature, receiver_generation: ReceiverGeneration) {
+        let mut impl_lifetime = None;
+
         match receiver_generation {
             ReceiverGeneration::Insert => {
                 sig.inputs.insert(
@@ -77,8 +79,17 @@ impl SignatureConverter<'_> {
                             let and_token = type_reference.and_token;
                             let lifetime = type_reference.lifetime.clone();
 
-                            *input = self
-                                .gen_first_receiver(pat_type.span(), Some((and_token, lifetime)));
+                            if matches!(self.impl_receiver_kind, ImplReceiverKind::DynamicImpl) {
+                                // `&self` is the delegation target, the dependency is `__impl`:
+                                impl_lifetime = lifetime;
+                                *input =
+                                    self.gen_first_receiver(pat_type.span(), Some((and_token, None)));
+                            } else {
+                                *input = self.gen_first_receiver(
+                                    pat_type.span(),
+                                    Some((and_token, lifetime)),
+                                );
+                            }
                         }
                         _ => {
                             let first_mut = sig.inputs.first_mut().unwrap();
@@ -92,8 +103,11 @@ impl SignatureConverter<'_> {
         }
 
         if matches!(self.impl_receiver_kind, ImplReceiverKind::DynamicImpl) {
+            // What the fn borrows from its dependency is borrowed from `__impl`, not from `&self`:
+            let impl_lifetime =
+                impl_lifetime.or_else(|| super::name_elided_output_lifetimes(sig));
             sig.inputs
-                .insert(1, self.gen_impl_receiver(Span::call_site()));
+                .insert(1, self.gen_impl_receiver(Span::call_site(), impl_lifetime));
         }
     }
 
@@ -106,7 +120,9 @@ impl SignatureConverter<'_> {
             ImplReceiverKind::SelfRef | ImplReceiverKind::DynamicImpl => {
                 self.gen_self_receiver(span, reference)
             }
-            ImplReceiverKind::StaticImpl => self.gen_impl_receiver(span),
+            ImplReceiverKind::StaticImpl => {
+                self.gen_impl_receiver(span, reference.and_then(|(_, lifetime)| lifetime))
+            }
         }
     }
 
@@ -130,10 +146,10 @@ impl SignatureConverter<'_> {
         })
     }
 
-    fn gen_impl_receiver(&self, _: Span) -> syn::FnArg {
+    fn gen_impl_receiver(&self, _: Span, lifetime: Option<syn::Lifetime>) -> syn::FnArg {
         let entrait = &self.crate_idents.entrait;
         syn::parse_quote! {
-            __impl: &::#entrait::Impl<EntraitT>
+            __impl: & #lifetime ::#entrait::Impl<EntraitT>
         }
     }
 
